@@ -202,6 +202,7 @@ impl<'a> CssParser<'a> {
                 arguments: ArgumentInvocation {
                     positional: arguments,
                     named: BTreeMap::new(),
+                    named_order: Vec::new(),
                     rest: None,
                     keyword_rest: None,
                     span: self.toks.span_from(before_args),
